@@ -141,6 +141,18 @@ func c12Worlds() []c12World {
 			add(fmt.Sprintf("honest/qe-bits/miscselect-bit%d-outside-the-identity-mask", bit), w, nil)
 		}
 	}
+	{ // the leaf's own CRL distribution point names another CA's list (or another service) than the CA that issued it:
+		// the request names the issuing CA
+		for _, dp := range []string{"https://api.trustedservices.intel.com/sgx/certification/v4/pckcrl?ca=processor&encoding=der",
+			"https://api.trustedservices.intel.com/sgx/certification/v4/pckcrl?ca=all&encoding=der", "https://example.test/sgx/certification/v4/pckcrl?ca=processor", "ldap://example.test/cn=crl"} {
+			w := world.Honest("T")
+			leaf := world.MakeCert(world.CertSpec{CN: world.CNLeaf, Key: T.LeafKey, SGXExt: world.SGXExtension(w.Plat), CRLDP: []string{dp}}, T.Inter, T.InterKey)
+			p := w.Parts.Clone()
+			p.Chain = world.PEM(leaf, T.Inter, T.Root)
+			raw, _ := p.Bytes()
+			add("honest/sgx-elements+leaf-distribution-point="+dp[strings.LastIndex(dp, "/")+1:], w, raw)
+		}
+	}
 	{ // processor CA as issuer of the leaf (the library only accepts the platform CA name; the CRL request must still name "processor")
 		w := world.Honest("T")
 		pk := world.NewKey("T/processor-ca")
